@@ -24,6 +24,12 @@ CHECKS = {
          "At every state of every delivery history of a two-fork universe with spends and reorgs in both directions, every applicable corrupted block of a closed catalogue (PoW, header rules, kernel signature, range proof, kernel offset, coinbase flags, wrong roots / MMR sizes after the working state was modified, double spend, unknown input, immature coinbase; header-first and header-batch delivery) and every valid losing-fork block is delivered: the best-chain fingerprint must be unchanged, nothing but an itself-valid header (and the fork block) may be remembered, and the valid sibling must then be processed exactly as by a twin that never saw the bad input.",
          "One corruption per failure stage (src/corrupt.rs); universe of 12 valid blocks.",
          "DESIGN.md §4 C06"),
+ "C09": ("fault_enumeration",
+         "exhaustive crash-point enumeration: every durable step of each scenario is a kill point (child process aborted by hook), judged by reopen + validate + reference unspent set + re-delivery vs uninterrupted twin",
+         "c09",
+         "For each scenario (plain extension, fork block, reorg with spends, header-by-header and header-batch reorg, compaction; thorough adds compaction+block, first start, reorg after compaction) every crash point the interrupted operation executes (74/4/74/22/18/42 in quick, 567 in thorough) is exercised: a child process is killed at it, a second process reopens the directory and checks Chain::init, allowed head, validate(false), the unspent set against the reference replay, and equality with an uninterrupted twin after re-delivery. Genuine defects found on the unchanged tree are listed per (scenario, crash label, failure kind) in known_findings.json; any other failing crash point is a VIOLATION.",
+         "Kill = process death (page cache survives). Crash points are the hook call sites (MANIFEST.hooks). 270 known findings share three root causes (DESIGN §7); a change that fails at a crash point already listed with the same failure kind is masked.",
+         "DESIGN.md §4 C09"),
  "C07": ("exploration",
          "bounded-exhaustive enumeration of sizes/positions/leaves/corruptions on the real pmmr code vs an explicitly built reference forest",
          "c07",
